@@ -7,6 +7,10 @@ def cases(tier, seed):
             for d in ((1, 2, 3) if sim in ("abrm_nd", "blochsim") else (1,)):
                 yield dict(fn="rf.bloch", args=dict(sim=sim, Nt=Nt, flip=flip, d=d, seed=seed, compose=Nt >= 2))
         yield dict(fn="rf.bloch", args=dict(sim=sim, Nt=8, zero=True, seed=seed))
+        if sim != "abrm_ptx":
+            for pad in ("tail", "head", "both"):
+                for d in ((1, 2) if sim in ("abrm_nd", "blochsim") else (1,)):
+                    yield dict(fn="rf.bloch", args=dict(sim=sim, Nt=12, flip=1.0, d=d, seed=seed, compose=True, pad=pad))
     yield dict(fn="rf.bloch", args=dict(sim="abrm", Nt=16, balanced=True, seed=seed))
     for n, peak in itertools.product((8, 16, 32), (0.3, 0.7, 0.95)):
         yield dict(fn="rf.slr", args=dict(n=n, peak=peak, seed=seed))
@@ -14,5 +18,5 @@ def cases(tier, seed):
 
 def groups(tier, seed):
     yield dict(name="Bloch simulators: unit norm, identity for a zero pulse, composition; inverse SLR round trip",
-               bound="5 simulators x Nt {1,2,16,64} x flip scale {0.1,1,6} x spatial dims 1..3; random complex beta polynomials n {8,16,32}, peak {0.3,0.7,0.95}",
+               bound="5 simulators x Nt {1,2,16,64} x flip scale {0.1,1,6} x spatial dims 1..3, plus zero-padded (RF-free head / tail) pulses with the gradient on; random complex beta polynomials n {8,16,32}, peak {0.3,0.7,0.95}",
                cases=cases(tier, seed))
